@@ -3,6 +3,7 @@ import ast
 
 from sa.core import AnalysisError, norm
 from sa.pat import AnyOf, StatusIn, StatusNotIn
+from rules._shared import retry_lined_up_rules
 
 TECHNIQUE = ('static analysis: CFG dominance of every state mutation in the '
              'message handler by the acceptance check, guard atoms of the '
@@ -113,17 +114,7 @@ def check(c):
             ok = cfg.dominated_by(t, lambda s, r=r: s is c.idx.parent[id(r)])
             c.ob('C10.stale', c.key(t, chk) + ' after the stale-job test',
                  ok, c.where(t, chk), '')
-    retry = [r for r in falses if r not in stale]
-    c.floor('C10.retry-lined-up', 'return False for retry-lined-up', len(
-        retry), 1)
-    for r in retry:
-        c.guard('C10.retry-lined-up', r, [
-            StatusIn('waiting'), "!(message == 'expired')",
-            'itask.run_mode == RunMode.LIVE',
-            AnyOf('0 < itask.try_timers[TimerFlags.SUBMISSION_RETRY].num',
-                  '0 < itask.try_timers[TimerFlags.EXECUTION_RETRY].num',
-                  'TimerFlags.SUBMISSION_RETRY in itask.try_timers',
-                  'TimerFlags.EXECUTION_RETRY in itask.try_timers')], chk)
+    retry_lined_up_rules(c, 'C10')
 
     # ---- (3) backward-move table
     table = {
@@ -285,4 +276,10 @@ VARIANTS = [
     TASK_STATUS_FAILED,
     TASK_STATUS_SUCCEEDED
 ]''', 'C10.backward'),
+    ('retry-ignore-polled-only', 'cylc/flow/task_events_mgr.py',
+     '''            # Polling in live mode only:
+''',
+     '''            and flag != self.FLAG_RECEIVED
+            # Polling in live mode only:
+''', 'C10.retry-lined-up'),
 ]
